@@ -605,7 +605,7 @@ func heldViaCallers(c *core.Ctx, locks map[*ssa.Function]*core.LockInfo, fn *ssa
 	// which parameter roots the lock path
 	pi := -1
 	for i, p := range fn.Params {
-		if lk == p.Name() || strings.HasPrefix(lk, p.Name()+".") {
+		if lk == core.ParamName(p) || strings.HasPrefix(lk, core.ParamName(p)+".") {
 			pi = i
 		}
 	}
